@@ -2,10 +2,12 @@ package mon
 
 import (
 	"fmt"
+	"hash/fnv"
 
 	"github.com/brocaar/lorawan"
 	"github.com/brocaar/lorawan/band"
 
+	"lwverif/core"
 	"lwverif/spec"
 )
 
@@ -52,4 +54,44 @@ func inInts(xs []int, v int) bool {
 		}
 	}
 	return false
+}
+
+// bandFingerprints creates every band configuration once, in an order that differs from worker to
+// worker (rotated by the batch number, reversed for odd batches), and reports a fingerprint of
+// each fresh instance's tables as an "agree." counter: the parent compares them across the worker
+// processes, so a table that depends on which configuration a process asked for first (a
+// sync.Once capturing the first caller's arguments, a shared map patched by one constructor)
+// shows up as a disagreement even though every single process is consistent with itself.
+func bandFingerprints(c *core.Ctx, tag string) {
+	cfgs := allBandCfgs()
+	n := len(cfgs)
+	for k := 0; k < n; k++ {
+		i := (k + c.Batch*5) % n
+		if c.Batch%2 == 1 {
+			i = (n - 1 - k + c.Batch*5) % n
+		}
+		cfg := cfgs[i]
+		b, err := cfg.New()
+		if err != nil {
+			continue
+		}
+		s, ok := band.VerifSnapshotOf(b)
+		if !ok {
+			continue
+		}
+		h := fnv.New64a()
+		h.Write([]byte(core.Dump(s)))
+		for dr := 0; dr <= 15; dr++ {
+			if sz, err := b.GetMaxPayloadSizeForDataRateIndex("", "", dr); err == nil {
+				fmt.Fprintf(h, "%d:%d/%d;", dr, sz.M, sz.N)
+			}
+			for off := 0; off <= 7; off++ {
+				if v, err := b.GetRX1DataRateIndex(dr, off); err == nil {
+					fmt.Fprintf(h, "%d,%d>%d;", dr, off, v)
+				}
+			}
+		}
+		c.Res().Counters["agree."+tag+"."+cfg.String()] = int64(h.Sum64() >> 1)
+		c.Eval(1)
+	}
 }
